@@ -191,6 +191,7 @@ CHECKS = {
         units=[
             dict(run="TestBrokerErrors", checks=None, shards_quick=2, shards_thorough=16, timeout=1800),
             dict(run="TestApiVersionsErrors", checks=None, timeout=1200),
+            dict(run="TestConcurrentEarlyClose", checks_quick=60, checks_thorough=1200, shards_quick=2, shards_thorough=4, timeout=1800),
             dict(run="TestTransportFaults", checks_quick=150, shards_quick=3, checks_thorough=1500, shards_thorough=8),
         ],
     ),
